@@ -15,6 +15,14 @@ JOBS = {
     # solver steps of sigpy/alg.py over the operations of model/Alg.v, Alg2.v ("alg") and of model/ProxGrad.v ("alg_pg")
     "alg": ("Gen_alg.v", lambda repo: __import__("tools.translate_alg", fromlist=["translate_alg"]).translate_alg(repo)),
     "alg_pg": ("Gen_alg_pg.v", lambda repo: __import__("tools.translate_alg", fromlist=["translate_alg"]).translate_alg_pg(repo)),
+    # trap_grad / min_trap_grad of sigpy/mri/rf/trajgrad.py over the operations record of model/Trap.v (C20)
+    "trap": ("Gen_trap.v", lambda repo: __import__("tools.translate_trap", fromlist=["translate_trap"]).translate_trap(repo)),
+    # sigpy/thresh.py and the _prox / __init__ methods of sigpy/prox.py over the operations of model/Prox.v (C11)
+    "prox": ("Gen_prox.v", lambda repo: __import__("tools.translate_prox", fromlist=["translate_prox"]).translate_prox(repo)),
+    # configuration logic of sigpy.app.LinearLeastSquares (_get_alg, _get_*) over model/LLS.v + model/LLSExpr.v (C14)
+    "lls": ("Gen_lls.v", lambda repo: __import__("tools.translate_lls", fromlist=["translate_lls"]).translate_lls(repo)),
+    # Bloch simulators (sim.py, optcont.blochsim) and ab2rf (slr.py) over FOps + trig oracle of model/Bloch.v (C19)
+    "bloch": ("Gen_bloch.v", lambda repo: __import__("tools.translate_bloch", fromlist=["translate_bloch"]).translate_bloch(repo)),
 }
 try:
     from tools import translate_more
